@@ -118,7 +118,8 @@ _POOL_STREAMS: dict = {}
 def _pool_call(args):
     key, case = args
     try:
-        return _POOL_STREAMS[key].impl(case)
+        # plain JSON types only: str/int subclasses of the implementation must not cross the pipe
+        return json.loads(jdump(_POOL_STREAMS[key].impl(case)))
     except BaseException as e:  # the adapter itself failed: surface it, never hide it
         return {"harness_error": f"{type(e).__name__}: {e}", "tb": traceback.format_exc()[-600:]}
 
@@ -192,7 +193,7 @@ class Ctx:
             impl_obs = []
             for c in cases:
                 try:
-                    impl_obs.append(st.impl(c))
+                    impl_obs.append(json.loads(jdump(st.impl(c))))
                 except BaseException as e:
                     if isinstance(e, (KeyboardInterrupt, SystemExit)):
                         raise
